@@ -361,7 +361,12 @@ func decompressNonEmpty(c *core.Ctx) {
 			}
 			idx++
 			sites++
-			srcKey := astx.CanonKey(info, astx.Unparen(call.Args[1]))
+			srcIdx := decompressSrcIndex(p, f)
+			if srcIdx < 0 || srcIdx >= len(call.Args) {
+				c.Undecided(fmt.Sprintf("nonempty/%s#%d", core.FuncName(fd), idx), call.Pos(), "the source parameter of Decompress was not identified")
+				continue
+			}
+			srcKey := astx.CanonKey(info, astx.Unparen(call.Args[srcIdx]))
 			dnf, trunc := astx.PathConditions(info, fd.Body, call)
 			key := fmt.Sprintf("nonempty/%s#%d", core.FuncName(fd), idx)
 			if trunc || len(dnf) == 0 {
@@ -392,7 +397,7 @@ func decompressNonEmpty(c *core.Ctx) {
 				}
 				all = all && ok
 			}
-			c.Check(all, key, call.Pos(), "%s decompresses %s only when it is non-empty", core.FuncName(fd), types.ExprString(call.Args[1]))
+			c.Check(all, key, call.Pos(), "%s decompresses %s only when it is non-empty", core.FuncName(fd), types.ExprString(call.Args[srcIdx]))
 		}
 	}
 	c.Floor("Decompress call sites", sites, 2)
@@ -568,4 +573,28 @@ func errNotOverwritten(c *core.Ctx) {
 	}
 	c.Ok("inventory", p.Connect.Syntax[0].Pos(), "%d error-producing call(s) stored in variables, %d overwritten before use on some path", sites, bad)
 	c.Floor("error-producing calls stored in variables", sites, 60)
+}
+
+// decompressSrcIndex: the position of Decompress's source parameter - the one it hands to the
+// decompressor (getDecompressor / Reset), wherever the signature puts it.
+func decompressSrcIndex(p *core.Program, f *types.Func) int {
+	fd := p.Decl(f)
+	if fd == nil {
+		return -1
+	}
+	info := p.Connect.TypesInfo
+	for _, call := range astx.CallsDeep(fd.Body) {
+		g := astx.CalleeFunc(info, call)
+		if g == nil || (g.Name() != "getDecompressor" && g.Name() != "Reset") {
+			continue
+		}
+		for _, a := range call.Args {
+			if pv, ok := astx.ObjOf(info, a).(*types.Var); ok {
+				if i := paramIndex(f, pv); i >= 0 {
+					return i
+				}
+			}
+		}
+	}
+	return -1
 }
